@@ -470,15 +470,16 @@ func kdfPreconditions(c *an.Ctx, p *an.Prog, rule string) {
 				return
 			}
 			nAcc++
-			// interval of params.<field> on this path
-			var t *an.Term
-			for _, a := range s.Atoms {
-				if strings.HasSuffix(a.A.K, "."+r.field+")") {
-					t = a.A
-				}
-			}
+			// interval of params.<field> on this path. The field may have been compared after a conversion that cannot
+			// change its value (uint8 → uint32 to fit a table column): a bound on the widened value bounds the field
 			lo := int64(0) // the fields are unsigned
-			if t != nil {
+			seenT := map[string]bool{}
+			for _, a0 := range s.Atoms {
+				t := a0.A
+				if !strings.HasSuffix(stripWiden(t).K, "."+r.field+")") || seenT[t.K] {
+					continue
+				}
+				seenT[t.K] = true
 				l, _ := s.Interval(t)
 				if l > lo {
 					lo = l
@@ -768,6 +769,26 @@ func reachesStatic(p *an.Prog, fn *ssa.Function, name string, depth int) bool {
 
 // registrationLoop finds the function holding the loop that registers the parameter sets (a loop some iteration of
 // which updates a map): the loader itself, or a module function it reaches through static calls (depth <= 3).
+// reaches: block to is reachable from block from along CFG edges (from == to counts only through an edge).
+func reaches(from, to *ssa.BasicBlock) bool {
+	seen := map[*ssa.BasicBlock]bool{}
+	stack := []*ssa.BasicBlock{from}
+	for len(stack) > 0 {
+		b := stack[len(stack)-1]
+		stack = stack[:len(stack)-1]
+		for _, sc := range b.Succs {
+			if sc == to {
+				return true
+			}
+			if !seen[sc] {
+				seen[sc] = true
+				stack = append(stack, sc)
+			}
+		}
+	}
+	return false
+}
+
 func registrationLoop(p *an.Prog, fc *ssa.Function) (*ssa.Function, []*ssa.BasicBlock) {
 	seen := map[*ssa.Function]bool{}
 	var owner *ssa.Function
@@ -796,10 +817,26 @@ func registrationLoop(p *an.Prog, fc *ssa.Function) (*ssa.Function, []*ssa.Basic
 				hdrs = append(hdrs, h)
 			}
 		}
+		// f's own loop registers the sets, possibly through helpers interpreted inline in its iterations (an addParams
+		// with a loop over a constant algorithm table): a loop inside a helper that is called from the body of that loop
+		// is part of one iteration of it, not a further registration loop. Calls outside the loop are still followed.
+		inOwn := map[*ssa.BasicBlock]bool{}
 		if owner == f {
-			return // the helpers this loop calls are part of its iterations (interpreted inline)
+			for _, h := range hdrs {
+				if h.Parent() != f {
+					continue
+				}
+				for _, b := range f.Blocks {
+					if h.Dominates(b) && reaches(b, h) {
+						inOwn[b] = true
+					}
+				}
+			}
 		}
 		for _, b := range f.Blocks {
+			if inOwn[b] {
+				continue
+			}
 			for _, in := range b.Instrs {
 				if ci, ok := in.(ssa.CallInstruction); ok {
 					walk(ci.Common().StaticCallee(), d+1)
